@@ -34,11 +34,18 @@ func check(c Case) (class, what string, o obs, err error) {
 	if k.wiring == wServe && k.level != lvlHandler {
 		return "", "", obs{}, fmt.Errorf("wiring %s gives no Context: handler level only", wiringName[k.wiring])
 	}
-	if k.level == lvlAuthenticators && k.az != azAbsent {
+	if (k.level == lvlAuthenticators || k.level == lvlAuthenticator1) && k.az != azAbsent {
 		return "", "", obs{}, fmt.Errorf("level %s involves no authorizer", lvlName[k.level])
 	}
-	e := buildEnv(key, []structure{structureOf(k)})
-	o = runCase(e, 0, k)
+	func() {
+		defer func() {
+			if pv := recover(); pv != nil {
+				o = obs{kind: obsPanic, msg: fmt.Sprintf("panic while building the API or executing the case: %v", pv)}
+			}
+		}()
+		e := buildEnv(key, []structure{structureOf(k)})
+		o = runCase(e, 0, k)
+	}()
 	if class = judge(k, o); class != "" {
 		what = explain(k, o)
 	}
@@ -48,28 +55,28 @@ func check(c Case) (class, what string, o obs, err error) {
 // runCase executes one case on a built environment whose operation op declares the structure of k.
 func runCase(e *env, op int, k kase) obs {
 	path, cnt := opPath(op), op
-	if k.decl == declNone {
+	if noRequirements(k.decl) {
 		path, cnt = "/none", len(e.structs)
 	}
 	if e.ctx == nil { // middleware.Serve: nothing but the handler in hand
-		return e.execHandler(cnt, path, k, k.decl == declNone)
+		return e.execHandler(cnt, path, k, noRequirements(k.decl))
 	}
 	base := e.bases[op]
-	if k.decl == declNone {
+	if noRequirements(k.decl) {
 		base = e.noneBase
 	}
 	if k.level != lvlHandler {
 		auths, owned := ordered(base.Authenticators, k)
-		if k.decl == declNone {
+		if noRequirements(k.decl) {
 			auths, owned = base.Authenticators, true
 		}
-		if k.level == lvlAuthenticators {
-			return e.execAuthenticators(base, auths, owned, parseRequest(rawRequest(path, k)))
+		if k.level == lvlAuthenticators || k.level == lvlAuthenticator1 {
+			return e.execAuthenticators(base, auths, owned, parseRequest(rawRequest(path, k)), k.level == lvlAuthenticator1)
 		}
 		return e.execAuthorize(base, auths, owned, parseRequest(rawRequest(path, k)))
 	}
 	owned := true
-	if k.decl != declNone {
+	if !noRequirements(k.decl) {
 		owned = e.setOrder(op, k)
 	}
 	return e.execHandler(cnt, path, k, owned)
@@ -239,6 +246,7 @@ func plan(thorough bool) []envPlan {
 			m = 3
 		}
 		add(key, s3, job{level: lvlAuthenticators, maxAlts: m, azs: []uint8{azAbsent}})
+		add(key, s3, job{level: lvlAuthenticator1, maxAlts: 1, azs: []uint8{azAbsent}})
 	}
 	// S2: the other ways an application wires API, context and handler (moment of RegisterAuth / RegisterAuthorizer
 	// relative to NewContext and handler construction; Serve; the UI handler constructors; the typed flavour)
@@ -298,6 +306,26 @@ func plan(thorough bool) []envPlan {
 			}
 		}
 	}
+	// S5: operations WITHOUT requirements (operation-level empty list over a global structure; no security key at all)
+	// next to a secured operation, through the wirings that differ in who calls Authorize: they must run, no principal
+	{
+		one := s3[:countStructs(1)]
+		others := []structure{one[0], one[1], one[7]} // the API's other requirement: anonymous, k1, k1 AND k2 AND k3
+		noAz := []uint8{azAbsent, azDeny, azDenyNil}
+		for _, w := range []uint8{wEarlyAPIHandler, wLateRoutesHandler, wEarlySwaggerUI, wServe, wTyped, wTypedRouter} {
+			for _, decl := range []uint8{declNone, declAbsent} {
+				for _, st := range others {
+					for _, az := range []bool{false, true} {
+						key := envKey{decl: decl, mode: modeRaw, reg: 7, az: az, wiring: w}
+						if w != wServe {
+							add(key, []structure{st}, job{level: lvlAuthorize, maxAlts: 3, azs: noAz})
+						}
+						add(key, []structure{st}, job{level: lvlHandler, maxAlts: 3, azs: noAz, rests: []uint8{restFine, restCType, restParam, restAccept}})
+					}
+				}
+			}
+		}
+	}
 	// S4: edge values of the names - scheme and scope names in odd but legal shapes (case-only differences, prefixes,
 	// punctuation, syntax look-alikes, Unicode folding pairs, very long, leading/trailing space), same reference
 	for nm := uint8(1); nm < nNaming; nm++ {
@@ -313,6 +341,7 @@ func plan(thorough bool) []envPlan {
 				add(key, s2, job{level: lvlHandler, maxAlts: hAlts, azs: surfAz, rests: fine})
 				if !az && c.mode == modeRaw {
 					add(key, s2, job{level: lvlAuthenticators, maxAlts: 2, azs: []uint8{azAbsent}})
+					add(key, s2, job{level: lvlAuthenticator1, maxAlts: 1, azs: []uint8{azAbsent}})
 				}
 			}
 		}
@@ -393,7 +422,7 @@ type okey struct {
 }
 
 func (l okey) String() string {
-	pre := [nLvl]string{"a", "h", "r"}[l.level] + ":"
+	pre := [nLvl]string{"a", "h", "r", "s"}[l.level] + ":"
 	if l.none == 1 {
 		pre += "no-requirement:"
 	}
@@ -415,7 +444,7 @@ func (l okey) String() string {
 
 func label(k kase, o obs) okey {
 	l := okey{level: k.level, kind: int8(o.kind)}
-	if k.decl == declNone {
+	if noRequirements(k.decl) {
 		l.none = 1
 	}
 	switch o.kind {
@@ -493,6 +522,7 @@ func main() {
 	knownClass := knownClasses()
 	verbose := os.Getenv("C02_VERBOSE") != "" // print one failing case per class and work item (also for known findings)
 	var abort atomic.Bool
+	var incomplete atomic.Bool // part of the space could not be executed (the tree under test panicked outside a single case)
 	stop := func() bool { return abort.Load() || r.OutOfTime() }
 	var mu sync.Mutex
 	total := tally{outcomes: map[okey]int64{}}
@@ -512,6 +542,7 @@ func main() {
 			defer func() {
 				if p := recover(); p != nil { // the tree under test cannot even build/route the API: report, do not crash
 					k := kase{decl: batch[i].key.decl, mode: batch[i].key.mode, reg: batch[i].key.reg, undef: batch[i].key.undef, nalts: batch[i].structs[0].n}
+					incomplete.Store(true)
 					r.Fail("api-construction-failed", fmt.Sprint(p), k.toCase())
 					envs[i] = nil
 				}
@@ -538,6 +569,14 @@ func main() {
 			p, e := batch[it.e], envs[it.e]
 			st := p.structs[it.op]
 			t := tally{outcomes: map[okey]int64{}, fails: map[string]*failAgg{}}
+			var cur kase // the case being executed, for the report if the code under test panics outside a driver's own recover
+			defer func() {
+				if pv := recover(); pv != nil {
+					incomplete.Store(true)
+					r.Fail("panic", fmt.Sprintf("panic while preparing or executing the case (route lookup, order set-up, driver): %v", pv), cur.toCase())
+					failures.Add(1)
+				}
+			}()
 			var nOrders int64
 			// differential bookkeeping (evidence only): tuples (vector, authorizer, rest, level) of this structure whose
 			// outcome differs between evaluation orders although every order's outcome is allowed by the text
@@ -545,11 +584,12 @@ func main() {
 			var differs []bool
 			for _, ord := range orders(st) {
 				ti := 0
-				if abort.Load() || ((p.key.decl == declNone || e.ctx == nil) && nOrders > 0) {
+				if abort.Load() || ((noRequirements(p.key.decl) || e.ctx == nil) && nOrders > 0) {
 					break // (an operation that declares nothing has no orders to vary; without a Context the order is the tree's own)
 				}
 				nOrders++
 				k := kase{decl: p.key.decl, mode: p.key.mode, reg: p.key.reg, undef: p.key.undef, nalts: st.n, alts: ord, wiring: p.key.wiring, naming: p.key.naming}
+				cur = k
 				var auths middleware.RouteAuthenticators
 				authOwned, handlerOwned, haveAuth, haveHandler := false, false, false, false
 				for _, j := range p.jobs {
@@ -561,7 +601,7 @@ func main() {
 						continue
 					}
 					if j.level != lvlHandler && !haveAuth {
-						if k.decl == declNone {
+						if noRequirements(k.decl) {
 							auths, authOwned = e.noneBase.Authenticators, true
 						} else {
 							auths, authOwned = ordered(e.bases[it.op].Authenticators, k)
@@ -571,8 +611,8 @@ func main() {
 					if j.level == lvlHandler && !haveHandler {
 						handlerOwned = true
 						if e.ctx == nil {
-							handlerOwned = k.decl == declNone
-						} else if k.decl != declNone {
+							handlerOwned = noRequirements(k.decl)
+						} else if !noRequirements(k.decl) {
 							handlerOwned = e.setOrder(it.op, k)
 						}
 						haveHandler = true
@@ -590,20 +630,21 @@ func main() {
 							}
 							for _, rest := range rests {
 								k.rest = rest
+								cur = k
 								var o obs
 								if j.level != lvlHandler {
 									base := e.bases[it.op]
-									if k.decl == declNone {
+									if noRequirements(k.decl) {
 										base = e.noneBase
 									}
-									if j.level == lvlAuthenticators {
-										o = e.execAuthenticators(base, auths, authOwned, authReq[k.mode][vi][az])
+									if j.level == lvlAuthenticators || j.level == lvlAuthenticator1 {
+										o = e.execAuthenticators(base, auths, authOwned, authReq[k.mode][vi][az], j.level == lvlAuthenticator1)
 									} else {
 										o = e.execAuthorize(base, auths, authOwned, authReq[k.mode][vi][az])
 									}
 								} else {
 									path, cnt := opPath(it.op), it.op
-									if k.decl == declNone {
+									if noRequirements(k.decl) {
 										path, cnt = "/none", len(e.structs)
 									}
 									o = e.execHandler(cnt, path, k, handlerOwned)
@@ -748,5 +789,5 @@ func main() {
 	if abort.Load() {
 		r.Set("stopped_early", "more than 20000 failing cases")
 	}
-	r.Finish("every requirement structure (ordered list of 1..3 alternatives over {anonymous, non-empty subsets of 3 schemes}; the bound of each sweep is in coverage.sweeps_environments) x every evaluation order of every alternative x every per-scheme outcome vector x authorizer kinds x registered/undefined authenticator configurations, at Context.Authorize, at RouteAuthenticators.Authenticate called directly, and through the handler chain (x rest-of-request variants); x the exported surface, each variant judged by the same reference on a reduced alphabet (coverage.sweeps_environments): 8 wirings of API/context/handler (RegisterAuth and RegisterAuthorizer before or after NewContext, RoutesHandler / APIHandler / APIHandlerSwaggerUI / APIHandlerRapiDoc / middleware.Serve, a typed RoutableAPI with a generated-style handler through NewRoutableContext and NewRoutableContextWithAnalyzedSpec with an explicit DefaultRouter, security.Authorized as authorizer) and 6 authenticator flavours (scripted AuthenticatorFunc; every constructor of package security: APIKeyAuth[Ctx] header and query, BasicAuth[Ctx], BasicAuthRealm[Ctx], BearerAuth[Ctx], HttpAuthenticator, ScopedAuthenticator); x 10 namings / value classes of the names the description uses and the values the schemes yield (scheme and scope names differing only in ASCII case, prefixes of each other, with . - [ ], with space % / : # ? & = + * , ;, k vs KELVIN SIGN and non-ASCII case pairs and a rune beyond the BMP, 300-byte names, leading/trailing space; empty scope lists; non-nil zero-value principals (empty string, 0, false); a rejection that also returns a principal), the reference working on indices so that names only have to be distinct byte strings; one evaluation = one Authorize call or one request on the real code compared with the reference; non-trivial = at least one authenticator logged a call (the plain, context-less callbacks of package security cannot log and are not counted); the enumerator never repeats a (environment, structure, order, vector, authorizer, rest, level) tuple", !abort.Load())
+	r.Finish("every requirement structure (ordered list of 1..3 alternatives over {anonymous, non-empty subsets of 3 schemes}; the bound of each sweep is in coverage.sweeps_environments) x every evaluation order of every alternative x every per-scheme outcome vector x authorizer kinds x registered/undefined authenticator configurations, at Context.Authorize, at RouteAuthenticators.Authenticate called directly, and through the handler chain (x rest-of-request variants); x the exported surface, each variant judged by the same reference on a reduced alphabet (coverage.sweeps_environments): 8 wirings of API/context/handler (RegisterAuth and RegisterAuthorizer before or after NewContext, RoutesHandler / APIHandler / APIHandlerSwaggerUI / APIHandlerRapiDoc / middleware.Serve, a typed RoutableAPI with a generated-style handler through NewRoutableContext and NewRoutableContextWithAnalyzedSpec with an explicit DefaultRouter, security.Authorized as authorizer) and 6 authenticator flavours (scripted AuthenticatorFunc; every constructor of package security: APIKeyAuth[Ctx] header and query, BasicAuth[Ctx], BasicAuthRealm[Ctx], BearerAuth[Ctx], HttpAuthenticator, ScopedAuthenticator); (*RouteAuthenticator).Authenticate called directly on one-alternative structures; operations WITHOUT requirements (operation-level empty list over a global structure, no security key at all) next to a secured one, at Authorize and through the untyped, Serve and typed handler chains with all four rest-of-request variants - they must run with no principal; x 10 namings / value classes of the names the description uses and the values the schemes yield (scheme and scope names differing only in ASCII case, prefixes of each other, with . - [ ], with space % / : # ? & = + * , ;, k vs KELVIN SIGN and non-ASCII case pairs and a rune beyond the BMP, 300-byte names, leading/trailing space; empty scope lists; non-nil zero-value principals (empty string, 0, false); a rejection that also returns a principal), the reference working on indices so that names only have to be distinct byte strings; one evaluation = one Authorize call or one request on the real code compared with the reference; non-trivial = at least one authenticator logged a call (the plain, context-less callbacks of package security cannot log and are not counted); the enumerator never repeats a (environment, structure, order, vector, authorizer, rest, level) tuple", !abort.Load() && !incomplete.Load())
 }
